@@ -134,6 +134,28 @@ impl Check for C11 {
         // ---- in-memory file system
         rec.op("Loader::load (fake fs)", &joined);
         let Some(fake_seq) = guarded(rec, || collect(ops::fake_loader(&fake_files, &root))) else { return };
+        // ---- in-memory file system again, with relative keys and a relative root path
+        if let (Some(rel_files), None) = (tree.as_fake_relative(), &nomatch) {
+            rec.op("Loader::load (fake fs, relative paths)", &joined);
+            let root_rel = tree.root.clone();
+            if let Some(seq) = guarded(rec, || collect(ops::fake_loader(&rel_files, &root_rel))) {
+                match seq {
+                    Err(e) => {
+                        rec.violation("split-ledger-fails-to-load", &format!("fake-fs-relative|{}", feats), &format!("loading the split tree from relative paths failed: {}", e.lines().next().unwrap_or("")), wit(json!({"error": e, "root": root_rel})));
+                        return;
+                    }
+                    Ok(seq) => {
+                        let texts: Vec<String> = seq.iter().map(|x| norm(&x.1)).collect();
+                        let want: Vec<String> = entries.iter().map(|e| norm(e)).collect();
+                        if texts != want {
+                            rec.violation("delivery-order-differs", &format!("fake-fs-relative|{}", feats), "entries delivered from relative paths differ from the written sequence", wit(json!({"root": root_rel})));
+                            return;
+                        }
+                        rec.count("fake-fs-relative:sequence-agrees");
+                    }
+                }
+            }
+        }
         // ---- real file system
         let dir = ctx.scratch.join(format!("c11-{}", idx));
         let _ = std::fs::remove_dir_all(&dir);
@@ -253,11 +275,11 @@ impl Check for C11 {
     fn rule(&self) -> String {
         "Each case: an accepted, order-sensitive generated ledger (commodity declarations, 2-10 transactions, 45% of the postings carrying balance assertions, \
          assignments, inferred amounts) cut at entry boundaries into a random tree of files of depth <= 3: literal includes into the same directory, a sub-directory \
-         (names with spaces), the parent directory, `./` and `../own-dir/` spellings; glob includes `*.ledger`, `a?b.ledger`, `part-[A-Za-z].ledger` whose byte-wise \
+         (names with spaces), the parent directory, `./` and `../own-dir/` spellings, absolute paths; glob includes `*.ledger`, `a?b.ledger`, `part-[A-Za-z].ledger` whose byte-wise \
          sorted matches are the intended order, and globs with the wildcard in a directory component (`*/*.ledger`, `20??/*.ledger`) whose directories sort one way \
          and file names the other; decoys that must not match (dot-files, dot-directories, other extensions, deeper directories, wrong length) containing unparsable \
          text. One tree in ten gets an include that matches nothing (missing file, unmatched wildcard, only a dot-file / deeper file as candidates). The tree is \
-         materialised as a FakeFileSystem map (whose glob returns reverse order) and as real files. Oracle: the (canonical path, source text, first line) sequence \
+         materialised as a FakeFileSystem map (absolute keys, and again with relative keys and a relative root) (whose glob returns reverse order) and as real files. Oracle: the (canonical path, source text, first line) sequence \
          delivered by Loader::load equals the written entry sequence with each entry's own file and line, no include line is delivered; report::process on the split \
          tree gives the same stored postings and balances as on the unsplit text; a sample compares `okane balance`, `register` and `primitive flatten` stdout; a \
          no-match include must fail on both file systems. Non-trivial = every generated tree; distinct by file contents."
